@@ -86,4 +86,10 @@ PROPS = {
         'correspondence': 'Shortcut of the implementation vs the model (findShortcut / findRegexpShortcut transcriptions); for regex rules the verified checker must_contain is evaluated on the model parse of the expression and the implementation shortcut: proved rules compare as sound, rules the checker cannot prove are counted undecided (unsupported_by_model), never alarms; a Go-side counter-example is a violation in every case',
         'assumptions': ['ASCII; regex rules outside the modelled RE2 fragment are undecided by the model (Go-side counter-example search still applies)', 'hostname requests: lower-case hostnames (documented caller obligation)'],
     },
+    'C11': {
+        'harness': 'c11',
+        'rule': 'storages of 1-4 lists with distinct ids drawn from {0, 1, 2, 7, -1, -5, 1000, 65536, 123456789, 2^31-1, -2^31}, IgnoreCosmetic on/off, contents of 0-29 lines with LF or CRLF (occasionally mixed, doubled), with or without final newline, blank and comment lines, cosmetic, hosts and network rules, invalid rules, multi-byte UTF-8 and NUL inside comments/cosmetic rules, lines of 4090-9000 bytes around the 4 KiB read buffer, leading/trailing blanks; String-backed and File-backed; scan, retrieval during the file scan, retrieval after the scan in reverse order and again in order (cache) from both backings; non-trivial = at least one rule was yielded',
+        'correspondence': 'scan sequence (storage index, kind, text, list id) of the implementation vs storage_scan of the model; the harness flags any difference between String and File scans, any retrieval that does not return the scanned rule, and index collisions; the model side re-checks its own retrieval on every index',
+        'assumptions': ['int32 list ids, offsets < 2^31 (the property domain)', 'network-rule lines with bytes >= 0x80 make the model decline the case'],
+    },
 }
